@@ -89,9 +89,10 @@ def check_pair(name, on, off):
         last = idx[-1]
         if lines[last].split()[1] != "prog":
             return {"why": "last procedure is %r" % lines[last]}
-        body = "\n".join(lines[last + 1:]).strip("\n")
-        if body != off.strip("\n"):
-            a, b = body.split("\n"), off.strip("\n").split("\n")
+        # trailing white space at the very end of the program text is not significant (the procedure bank strips it)
+        body = "\n".join(lines[last + 1:]).strip("\n").rstrip()
+        if body != off.strip("\n").rstrip():
+            a, b = body.split("\n"), off.strip("\n").rstrip().split("\n")
             d = next(((x, y) for x, y in zip(a, b) if x != y), (len(a), len(b)))
             return {"first_difference": d}
         return None
